@@ -325,10 +325,9 @@ theorem verify_iff_batchItem (legacy : Bool) (msg sig vk : List UInt8) :
   · rintro ⟨⟨A, s, R, hA, hs, hR, he⟩, ⟨Q, hQ⟩⟩
     refine ⟨A, s, hA, hs, ?_⟩
     rw [← hQ, decodeEd_encodeEd] at hR
-    cases hR
-    rw [← hQ]
-    congr 1
+    have hQR : Q = R := Option.some.inj hR
     rw [sub_right_comm, sub_eq_zero] at he
-    exact he
+    rw [he, ← hQR]
+    exact hQ
 
 end Dalek.Eds
